@@ -298,7 +298,12 @@ CHECKS["C07"] = dict(
          "every prefix, over the whole 77-command table; with equal clock readings only the random/float commands and XADD * are excluded; "
          "classification_tight - each excluded class has a diverging witness. Apply.apply_exactly_once / publish_spec - whatever the overlap of the Ready batches, each committed entry reaches the state "
          "machine exactly once, in index order; RS.commit_order_respects_real_time - a proposal made after an index was committed is committed strictly behind it, "
-         "for every cluster size and schedule of the abstract protocol. TIED to the code by running random overlapping batches (incl. gaps, which must be refused) "
+         "for every cluster size and schedule of the abstract protocol. CROSS-NODE COMPOSITION (Props/C07Multi.lean): the multi-node rendezvous model (one Rendezvous.State per "
+         "node, Cluster/Multi.lean) run ON TOP OF an L0 run, its interface to Raft discharged from RS.C15_state_machine_safety / C15_committed_never_rewritten / log matching "
+         "(C07Multi.cinv_step); for every reachable state, any N, any schedule, one deterministic state machine: C07Multi.applied_agree, own_reply_cluster (every reply at ANY "
+         "node is the reply of the client's own command at its position of the one shared log), real_time_cross_node, C07_linearizable_partial (combined history of all clients of "
+         "all nodes linearizable, witness = log order; partial: UniqueIds + AppendOnce are guards, fixed membership, no loss of a node's applied state, model level), "
+         "same_prefix_same_keyspace_partial (per-node environments, Deterministic commands). TIED to the code by running random overlapping batches (incl. gaps, which must be refused) "
          "through the real entriesToApply/publishEntries against Apply.publish, and by extracting the order of the Ready arm (fact F4, incl. F4d: the persist step is "
          "unconditional); the BEHAVIOURAL form of F4 - votes answered / appends acknowledged / entries applied only when a restart would find them on disk, no double vote in a "
          "term across restarts, on the real Ready loop of one node - is C08's suite readyloop (harness/readyloop.go, vlib/readygen.py), run by `check C08`. "
